@@ -67,6 +67,44 @@ def names(dv):
     return stack, root, table, cur, loop, tag, val
 
 
+def sym_block(stmts, STACK):
+    """Symbolic effects of a straight-line block on the parser state: list of ('attach', parent, tag, item) / ('pop',) /
+    ('push', ctx) in order, and the final values of the locals it assigns - every term written over the values the
+    locals had when the block was entered.  None when the block contains anything else."""
+    from sa.guards import _detach
+    env = {}
+
+    def term(e):
+        class S(ast.NodeTransformer):
+            def visit_Name(self, node):
+                if isinstance(node.ctx, ast.Load) and node.id in env:
+                    return _detach(env[node.id])
+                return node
+        return S().visit(_detach(e))
+
+    effects = []
+    for st in stmts:
+        if isinstance(st, ast.Expr) and isinstance(st.value, ast.Constant):
+            continue
+        if isinstance(st, ast.Expr) and isinstance(st.value, ast.Call) and isinstance(st.value.func, ast.Attribute):
+            c = st.value
+            if c.func.attr == "add_group" and len(c.args) == 2 and not c.keywords:
+                effects.append(("attach", unparse(term(c.func.value)), unparse(term(c.args[0])), unparse(term(c.args[1]))))
+                continue
+            if c.func.attr == "append" and unparse(c.func.value) == STACK and len(c.args) == 1:
+                effects.append(("push", unparse(term(c.args[0]))))
+                continue
+            return None
+        if isinstance(st, ast.Delete) and len(st.targets) == 1 and unparse(st.targets[0]) == f"{STACK}[-1]":
+            effects.append(("pop",))
+            continue
+        if isinstance(st, ast.Assign) and len(st.targets) == 1 and isinstance(st.targets[0], ast.Name):
+            env[st.targets[0].id] = term(st.value)
+            continue
+        return None
+    return effects, {k: unparse(v) for k, v in env.items()}
+
+
 def stack_rule(ctx, rule, repo, dv, fo):
     fn = dv.fn
     STACK, ROOT, TABLE, CUR, loop, TAG, VAL = names(dv)
@@ -132,7 +170,9 @@ def stack_rule(ctx, rule, repo, dv, fo):
     up = f"{CUR} = {CUR}.parent"
     for d, blk in pop_blocks:
         s = seq(blk)
-        ok = sorted(s) == sorted([attach, up, f"del {STACK}[-1]"]) and s.index(attach) < s.index(up)
+        sb = sym_block(blk, STACK)
+        # whatever the statement order / helper locals: one attach of the current item to its parent under its own tag, one pop, parent becomes current
+        ok = sb is not None and sorted(sb[0]) == sorted([("attach", f"{CUR}.parent", f"{CUR}.tag", CUR), ("pop",)]) and sb[1].get(CUR) == f"{CUR}.parent"
         w = enclosing(d, (ast.While,))
         cond_ok = w is not None and blk is w.body and unparse(w.test) == f"{STACK} and {TAG} not in {CUR}.repeating_group_tags"
         which = "group-start branch" if enclosing(d, (ast.If,)) is not None and under_group_start(d, TAG, TABLE) else "member branch"
@@ -148,8 +188,15 @@ def stack_rule(ctx, rule, repo, dv, fo):
     var = unparse(split_st.targets[0]) if isinstance(split_st, ast.Assign) else "?"
     want_args = [f"{CUR}.tag", f"{CUR}.repeating_group_tags", f"{CUR}.parent"]
     need = [attach, unparse(split_st), f"del {STACK}[-1]", f"{STACK}.append({var})", f"{CUR} = {var}"]
-    ok = a == want_args and sorted(s) == sorted(need) and s.index(attach) < s.index(f"{CUR} = {var}") and s.index(unparse(split_st)) < s.index(f"{CUR} = {var}") \
-        and s.index(f"del {STACK}[-1]") < s.index(f"{STACK}.append({var})")
+    sb = sym_block(split_blk, STACK)
+    sibling = f"_RepeatingGroupContext({CUR}.tag, {CUR}.repeating_group_tags, {CUR}.parent)"
+    n_ctor = sum(1 for st_ in split_blk for x in ast.walk(st_) if isinstance(x, ast.Call) and unparse(x.func) == "_RepeatingGroupContext")
+    ok = False
+    if sb is not None and n_ctor == 1:
+        eff, env = sb
+        kinds = [e[0] for e in eff]
+        ok = sorted(eff) == sorted([("attach", f"{CUR}.parent", f"{CUR}.tag", CUR), ("pop",), ("push", sibling)]) \
+            and kinds.index("pop") < kinds.index("push") and env.get(CUR) == sibling
     iff = enclosing(split_st, (ast.If,))
     cond_ok = iff is not None and split_blk is iff.body and unparse(iff.test) in (f"{TAG} in {CUR}.tags", f"{TAG} in {CUR}")
     ctx.instance(rule, "decode[item split: attach item, sibling context replaces stack top]", ok and cond_ok,
